@@ -59,7 +59,9 @@ fam({'C14': ('main', 'all')},
 fam({'C17': ('main', 'all')},
     driver='worker', tv='WorkerTV', mc_quick=[('WorkerL2', 'WorkerL2')], mc_thorough=[('WorkerL2', 'WorkerL2_big')],
     n=(80, 300, 2000, 6000))
-F['C17'] = dict(F['C17'], l2gate=dict(driver='worker', tv='WorkerL2TV', n=(100, 1500)))
+F['C17'] = dict(F['C17'], l2gate=dict(driver='worker', tv='WorkerL2TV', n=(100, 1500)),
+                # real contention: thousands of back-to-back Do / done pairs per execution (free-running only)
+                legs=[dict(driver='worker', profile='stress', prop='all', tv='WorkerTV', n=(0, 100, 0, 800), mc_quick=[], mc_thorough=[])])
 F['C14'] = dict(F['C14'], l2gate=dict(driver='workers', tv='WorkersL2TV', n=(60, 1000)))
 fam({'C09': ('keys', 'all'), 'C10': ('main', 'all')},
     driver='exclusive', tv='ExclusiveTV',
